@@ -271,6 +271,10 @@ def _differential(res, rng, n_sets, n_fft, viol):
                          tol=TOL * S, cgmy=dict(c=float(p._c), g=float(p._lambda_m), m=float(p._lambda_p), y=0.0), **rep)
 
 
+_FFT_PREV = {}
+_FFT_HIST = {}
+
+
 def _one_model(res, rng, model, rep, with_fft, viol):
     import numpy as np
     from rpylib.numerical.cosmethod import COSPricer
@@ -329,6 +333,11 @@ def _one_model(res, rng, model, rep, with_fft, viol):
         i = int(np.argmax(np.maximum(-dig, dig - df))); bad("digital price outside [0, df]", strike=float(ks[i]), price=float(dig[i]), df=df)
     if np.any(np.diff(dig) > TOL):
         i = int(np.argmax(np.diff(dig))); bad("digital price not decreasing in the strike", strike=float(ks[i]))
+    # --- a used pricer instance quotes like a fresh one (several quotes on ONE instance above)
+    fresh = COSPricer(model)
+    if not (np.array_equal(fresh.digital(ks, T), dig) and np.array_equal(COSPricer(model).put(ks, T), put)
+            and np.array_equal(cos.call(ks, T), call) and np.array_equal(cos.put(ks, T), put)):
+        bad("COS quotes depend on the quotes made before on the same pricer instance")
     # --- scalar strike == vector strike, price(product) dispatch
     j = int(rng.randrange(len(ks)))
     k0 = float(ks[j])
@@ -343,24 +352,40 @@ def _one_model(res, rng, model, rep, with_fft, viol):
         bad("COSPricer.price(product) differs from call/put/forward", strike=k0)
     # --- density and cdf on a uniform log grid over the truncation range
     x0 = float(model.x0_value())
-    M = 1000                                           # trapezoid on M+1 uniform log-points: exact up to aliasing of the terms k >= 2M
+    # trapezoid on M+1 uniform log-points is exact for the cosine series up to aliasing of the terms k >= 2M: the grid is
+    # refined until |cf(u_2M)| <= 1e-7; if 4000 intervals do not resolve the density the two quadrature checks are skipped
+    M = next((m for m in (1000, 4000) if abs(model.log_characteristic_function(t=T, x=2 * m * np.pi / (b - a))) <= 1e-7), None)
+    res.bump("density_grid", f"{name}: {M or 'unresolved (integral/cdf not asserted)'}")
+    resolved = M is not None
+    M = M or 1000
     us = np.linspace(x0 + a, x0 + b, M + 1)
     dens = np.concatenate([cos.density_log(time=T, u=us[i:i + 125]) for i in range(0, M + 1, 125)])
     if np.any(dens < -TOL):
         i = int(np.argmin(dens)); bad("implied density negative beyond the tolerance", log_spot=float(us[i]), density=float(dens[i]))
     h = us[1] - us[0]
     total = float(h * (np.sum(dens) - (dens[0] + dens[-1]) / 2))
-    if abs(total - 1.0) > TOL:
-        bad("implied density does not integrate to one", integral=total)
-    # cdf against the cumulative Simpson integral of the density at every 50th node (even indices)
+    if resolved and abs(total - 1.0) > TOL:
+        bad("implied density does not integrate to one", integral=total, grid=M)
+    # cdf against the cumulative Simpson integral of the density (even nodes); asserted only where Simpson and the
+    # cumulative trapezoid agree to 1e-4 (then Simpson's own error is far below the 5e-4 tolerance)
     simpson = np.concatenate([[0.0], np.cumsum(h / 3 * (dens[0:-2:2] + 4 * dens[1:-1:2] + dens[2::2]))])   # at nodes 0,2,4,...
-    nodes = np.arange(100, M - 99, 50)
+    trapez = np.concatenate([[0.0], np.cumsum((dens[1:] + dens[:-1]) / 2 * h)])[::2]
+    nodes = np.arange(M // 10, M - M // 10 + 1, M // 20)
     cdf = cos.cdf(time=T, x=np.exp(us[nodes]))
-    devc = np.abs(cdf - simpson[nodes // 2])
-    if np.any(devc > 5e-4) or np.any(np.diff(cdf) < -TOL):
-        i = int(np.argmax(devc))
-        bad("COSPricer.cdf is not the integral of COSPricer.density", finding="F-C18-1", x=float(np.exp(us[nodes][i])), cdf=float(cdf[i]),
-            integrated_density=float(simpson[nodes // 2][i]), df=df)
+    if np.any(np.diff(cdf) < -TOL):
+        bad("COSPricer.cdf is not monotone")
+    if resolved and float(np.max(np.abs(simpson - trapez))) <= 1e-4:
+        devc = np.abs(cdf - simpson[nodes // 2])
+        if np.any(devc > 5e-4):
+            i = int(np.argmax(devc))
+            bad("COSPricer.cdf is not the integral of COSPricer.density", finding="F-C18-1", x=float(np.exp(us[nodes][i])), cdf=float(cdf[i]),
+                integrated_density=float(simpson[nodes // 2][i]), df=df, grid=M)
+    else:
+        res.bump("density_grid", f"{name}: cdf-vs-density not asserted (quadrature too coarse)")
+    # cdf end points (independent of any quadrature): ~0 at the lower end of the range, ~1 at the upper end
+    ends = cos.cdf(time=T, x=np.exp(np.array([x0 + 0.9 * a, x0 + 0.9 * b])))
+    if abs(float(ends[0])) > 1e-5 or abs(float(ends[1]) - 1.0) > 1e-5:
+        bad("COSPricer.cdf does not run from 0 to 1 over the truncation range", finding="F-C18-1", cdf_low=float(ends[0]), cdf_high=float(ends[1]), df=df)
     # --- closed form (Black-Scholes)
     kf = S * np.exp(np.linspace(max(a / 3, -0.7), min(b / 3, 0.7), 11))
     cosf = cos.call(kf, T)
@@ -379,17 +404,31 @@ def _one_model(res, rng, model, rep, with_fft, viol):
         res.bump("fft", name)
         fft = FFTPricer(model)
         fc, fp = fft.call(kf, T), fft.put(kf, T)
+        # models FFT-priced earlier in this process at the same maturity: part of the replay (a pricer must not remember them)
+        hist = _FFT_HIST.setdefault(T, [])
+        bad_fft = lambda what, **kw: bad(what, fft_history=hist[:1] + hist[-2:], **kw)  # noqa
+        hist.append({k: rep[k] for k in ("model", "spot", "r", "d", "params")})
         dv = np.abs(fc - cosf)
         if np.any(dv > tol):
-            i = int(np.argmax(dv)); bad("COS and FFT call prices disagree", strike=float(kf[i]), cos=float(cosf[i]), fft=float(fc[i]), tol=tol)
+            i = int(np.argmax(dv)); bad_fft("COS and FFT call prices disagree", strike=float(kf[i]), cos=float(cosf[i]), fft=float(fc[i]), tol=tol)
         dv = np.abs((fc - fp) - df * (fwd - kf))
         if np.any(dv > 1e-12 * np.maximum(S, kf)):
             bad("put-call parity violated by the FFT pricer")
+        # history independence: the previous model, re-priced at ITS maturity after this one, and this model priced again
+        prev = _FFT_PREV.get(T)
+        if prev is not None:
+            pm, pk, pc, prep = prev
+            again = FFTPricer(pm).call(pk, T)
+            if not np.array_equal(again, pc):
+                viol("FFT prices of a model change after another model was priced at the same maturity", other=dict(model=rep["model"], params=rep["params"]), **prep)
+        if not np.array_equal(FFTPricer(model).call(kf, T), fc):
+            bad("FFT prices are not reproducible on a fresh pricer instance")
+        _FFT_PREV[T] = (model, kf, fc, dict(rep))
         if name == "BLACKSCHOLES":
             cfk = np.array([float(CFBlackScholes(model).call(float(k), T)) for k in kf])
             dv = np.abs(fc - cfk)
             if np.any(dv > tol):
-                i = int(np.argmax(dv)); bad("FFT and the Black-Scholes closed form disagree", strike=float(kf[i]), fft=float(fc[i]), closed_form=float(cfk[i]), tol=tol)
+                i = int(np.argmax(dv)); bad_fft("FFT and the Black-Scholes closed form disagree", strike=float(kf[i]), fft=float(fc[i]), closed_form=float(cfk[i]), tol=tol)
 
 
 def _degenerate_bs(res, viol):
@@ -448,6 +487,10 @@ def replay(path):
         warnings.simplefilter("ignore")
         model = U_.helper_model(ModelType[data["model"]])(spot=data["spot"], r=data["r"], d=data["d"], **data["params"])
         rep = {k: data[k] for k in ("kind", "model", "spot", "r", "d", "maturity", "params")}
+        from rpylib.numerical.fft import FFTPricer
+        for h in data.get("fft_history", []):     # re-create the process history: earlier FFT quotes at the same maturity
+            hm = U_.helper_model(ModelType[h["model"]])(spot=h["spot"], r=h["r"], d=h["d"], **h["params"])
+            FFTPricer(hm).call(np.array([h["spot"]]), data["maturity"])
         _one_model(res, random.Random(0), model, rep, True, lambda what, **kw: found.append((what, kw)))
         if data.get("what2") == "vg_vs_cgmy":
             from rpylib.numerical.cosmethod import COSPricer
